@@ -89,7 +89,7 @@ VERUS.append(dict(
 FU = "datafusion/common/src/utils/mod.rs"
 _SEARCH_EDITS = [
     dict(rule="G1", find="    compare_fn: F,\n", replace="    compare_fn: F,\n    Ghost(p): Ghost<spec_fn(int) -> bool>,\n"),
-    dict(rule="R3", find="compare_fn(&val, target)?", replace="compare_fn(val.as_slice(), target)?"),
+    dict(rule="R3", regex=r"compare_fn\(&val, target\)\?", replace="compare_fn(val.as_slice(), target)?", count="any"),
 ]
 VERUS.append(dict(
     name="range_search_kernels",
@@ -136,7 +136,12 @@ VERUS.append(dict(
         dict(name="linear_skips_rows", item="search_in_slice", find="low += 1;", replace="low += 2;"),
     ],
 ))
-KANI = []
+KANI = [dict(package="datafusion-common", module="common/utils.rs", timeout=900, harnesses=[
+    dict(name="c09_search_in_slice_bounded", complete=False, bound="5 rows, arbitrary predicate (2^5), every 0 <= low <= high <= 5; get_row_at_idx stubbed (row i = [UInt64(i)])",
+         what="Kani twin of the Verus unit on the unextracted search_in_slice: first row of [low, high) failing the predicate, or high"),
+    dict(name="c09_find_bisect_point_bounded", complete=False, bound="5 rows, every prefix-closed predicate (cut point), every 0 <= low <= high <= 5; get_row_at_idx stubbed",
+         what="Kani twin of the Verus unit on the unextracted find_bisect_point: the partition point of the predicate"),
+])]
 TRUSTED = ["Verus 0.2026.09.13 + bundled Z3", "global size_of usize == 8", "type model of ScalarValue/WindowFrameBound restricted to the variants the function matches on",
            "rewrites R9 (error macros -> opaque error), R11 (std::cmp::min -> verified min_usize)"]
 ASSUMPTIONS = ["precondition idx < length (callers iterate idx over 0..length)", "error content (message text) not verified"]
